@@ -1,4 +1,4 @@
-CONSTANTS LGR = 3  LGI = 5  DA = 3  DB = 3  SIGNS = "all"  MUT = ""
+CONSTANTS LGR = 3  LGI = 5  DA = 3  DB = 3  SIGNS = "nonneg"  MUT = ""
 INIT Init
 NEXT Next
 INVARIANT Check
